@@ -89,3 +89,62 @@ Proof.
   split; [|eauto]. intros E. inversion E; subst. simpl in H.
   destruct ne; simpl in H; discriminate.
 Qed.
+
+(* ---------- _validate_reindex: when may the block stage reindex to the full set of groups? ---------- *)
+Definition rrow : Type := (string * bool * bool * option bool * option meth * bool * bool * bool * rchoice)%type.
+
+Definition opt_bool_eqb (a b : option bool) : bool :=
+  match a, b with None, None => true | Some x, Some y => Bool.eqb x y | _, _ => false end.
+Definition is_meth (m : option meth) (x : meth) : bool := match m with Some y => meth_eqb x y | None => false end.
+
+Definition rrow_ok (r : rrow) : bool :=
+  let '(_, is_arg, first_last, reindex, method, expected, by_dask, arr_dask, out) := r in
+  let all_eager := negb arr_dask && negb by_dask in
+  match out with
+  | RRaise EValue | RRaise ENotImplemented =>
+      (* only an explicit reindex=True on chunked input is ever refused, and only for the documented reasons *)
+      opt_bool_eqb reindex (Some true) && negb all_eager
+      && (is_arg || is_meth method MCohorts || (is_meth method MBlockwise && negb by_dask) || first_last)
+  | RRaise _ => false
+  | RStrategy bw =>
+      match reindex with
+      | Some b => opt_bool_eqb bw (Some b)                                  (* an explicit choice is honoured *)
+                  && (negb b || all_eager
+                      || negb (is_arg || is_meth method MCohorts || (is_meth method MBlockwise && negb by_dask) || first_last))
+      | None =>
+          match method with
+          | None => opt_bool_eqb bw None                                     (* decided later, once the method is chosen *)
+          | Some m =>
+              match bw with
+              | None => false                                                  (* a concrete method always gets a concrete strategy *)
+              | Some true =>
+                  (* the simple combine needs every block reindexed to KNOWN groups with a neutral fill *)
+                  all_eager
+                  || (negb first_last
+                      && (if meth_eqb m MBlockwise then by_dask
+                          else negb is_arg && negb (meth_eqb m MCohorts) && (expected || negb by_dask)))
+              | Some false => negb all_eager
+              end
+          end
+      end
+  end.
+
+Lemma reindex_rows_ok : forallb rrow_ok validate_reindex_rows = true.
+Proof. vm_compute. reflexivity. Qed.
+
+Theorem validate_reindex_rules : forall r, In r validate_reindex_rows -> rrow_ok r = true.
+Proof. apply forallb_forall. exact reindex_rows_ok. Qed.
+
+(* readable consequence: with reindex unset and a concrete method on chunked input, the block stage reindexes
+   (simple combine) only if no first/last fill problem exists, the reduction is not an arg reduction routed
+   through cohorts/map-reduce, the method is not cohorts, and the groups are known up front *)
+Theorem auto_reindex_true_only_when_safe name is_arg first_last m expected by_dask arr_dask :
+  In (name, is_arg, first_last, None, Some m, expected, by_dask, arr_dask, RStrategy (Some true)) validate_reindex_rows ->
+  (arr_dask || by_dask) = true -> m <> MBlockwise ->
+  first_last = false /\ is_arg = false /\ m <> MCohorts /\ (expected = true \/ by_dask = false).
+Proof.
+  intros H Hd Hm. apply validate_reindex_rules in H. simpl in H.
+  destruct arr_dask, by_dask; simpl in Hd; try discriminate; simpl in H;
+    destruct first_last, is_arg, m, expected; simpl in H; try discriminate; try congruence;
+    repeat split; try congruence; auto.
+Qed.
